@@ -19,6 +19,8 @@ not clobber that name.
 import ast
 import copy
 
+from .srcmodel import unparse
+
 
 def _names(fn):
     out = set()
@@ -201,6 +203,37 @@ def _anyall_form(s, used_outside, counter):
     return loop
 
 
+def _extend_form(s, counter):
+    """`X.extend(Y)` (Y a plain name / attribute) as a statement ->
+    `for e in Y: X.append(e)`: the bulk and the element-wise form add the same
+    elements in the same order."""
+    if not (isinstance(s, ast.Expr) and isinstance(s.value, ast.Call)):
+        return None
+    c = s.value
+    if not (isinstance(c.func, ast.Attribute) and c.func.attr == "extend" and
+            len(c.args) == 1 and not c.keywords and
+            isinstance(c.args[0], (ast.Name, ast.Attribute)) and
+            isinstance(c.func.value, (ast.Name, ast.Attribute))):
+        return None
+    if unparse(c.args[0]) == unparse(c.func.value):
+        return None
+    counter[0] += 1
+    v = "_elem__e%d" % counter[0]
+    loop = ast.For(
+        target=ast.Name(id=v, ctx=ast.Store()), iter=c.args[0],
+        body=[ast.Expr(value=ast.Call(
+            func=ast.Attribute(value=copy.deepcopy(c.func.value), attr="append",
+                               ctx=ast.Load()),
+            args=[ast.Name(id=v, ctx=ast.Load())], keywords=[]))],
+        orelse=[])
+    ast.copy_location(loop, s)
+    for sub_ in ast.walk(loop):
+        if isinstance(sub_, (ast.expr, ast.stmt)) and not hasattr(sub_, "lineno"):
+            ast.copy_location(sub_, s)
+    ast.fix_missing_locations(loop)
+    return loop
+
+
 def desugar_function(fn):
     counter = [0]
     done = [0]
@@ -240,6 +273,10 @@ def desugar_function(fn):
                 if f is not None:
                     s = f
                     done[0] += 1
+            ef = _extend_form(s, counter)
+            if ef is not None:
+                s = ef
+                done[0] += 1
             if _eligible(s):
                 inside = {id(n) for n in ast.walk(s.value)}
                 used = {n.id for n in ast.walk(fn) if isinstance(n, ast.Name)
